@@ -40,6 +40,8 @@ TRANSLATORS = [
     ("gen_rabin.py", "GenRabin.v"),
     ("gen_union.py", "GenUnionTable.v"),
     ("gen_consts.py", "GenConsts.v"),
+    ("gen_dispatch.py", "GenDeDispatch.v"),
+    ("gen_ser_dispatch.py", "GenSerDispatch.v"),
 ]
 
 def regenerate():
